@@ -1052,7 +1052,7 @@ class C08(core.Check):
                     def h(self):
                         if name == first:
                             gate_in.set()
-                            gate_go.wait(10)
+                            gate_go.wait(120)
                         seen[name] = view()
                         return name.encode()
                     h.exposed = True
@@ -1061,12 +1061,12 @@ class C08(core.Check):
                 app = wsgi.make_app(Root(), confs)
                 t = threading.Thread(target=lambda: wsgi.call(app, 'GET', '/' + first), daemon=True)
                 t.start()
-                gate_in.wait(10)
+                gate_in.wait(120)
                 t2 = threading.Thread(target=lambda: wsgi.call(app, 'GET', '/' + second), daemon=True)
                 t2.start()
-                t2.join(10)
+                t2.join(120)
                 gate_go.set()
-                t.join(10)
+                t.join(120)
                 _c02.C02.drop_app(app)
                 self.count('overlapping requests (toolmaps/config seen late)')
                 for name in (first, second):
